@@ -52,7 +52,7 @@ func genPrincipals(r *c.Rng, max int) []string {
 func genSign(r *c.Rng) *Case {
 	k := &Case{Op: "sign"}
 	k.CA = c.Pick(r, []string{"both", "both", "both", "both", "both", "bothnodb", "bothnodb", "bothnodb", "bothnodb", "none", "user", "user", "host", "host", "fed"})
-	k.Prov = c.Pick(r, []string{"jwk", "jwk", "jwk", "x5c", "x5c", "oidc", "nebula"})
+	k.Prov = c.Pick(r, []string{"jwk", "jwk", "jwk", "x5c", "x5c", "oidc", "nebula", "k8ssa"})
 	k.Sub = c.Pick(r, subPool)
 	if r.Chance(1, 60) {
 		k.Sub = ""
@@ -164,6 +164,50 @@ func genSign(r *c.Rng) *Case {
 		base = []string{k.Sub}
 	}
 	k.Req.Principals = base
+	if k.Prov == "k8ssa" {
+		k.Sub = c.Pick(r, []string{"builder", "deployer"})
+		if r.Chance(3, 4) { // the request template needs type, key id and principals
+			if k.Req.CertType == "" {
+				k.Req.CertType = c.Pick(r, []string{"user", "host"})
+			}
+			if k.Req.KeyID == "" {
+				k.Req.KeyID = "sa-key"
+			}
+			if len(k.Req.Principals) == 0 {
+				k.Req.Principals = []string{c.Pick(r, prinPool)}
+			}
+		}
+	}
+	// validity overrides
+	if r.Chance(1, 3) {
+		va, vb := []int{3600, 5400}, []int{14400, 18000}
+		if r.Chance(2, 3) {
+			k.TVA = c.Pick(r, append([]int{0}, va...))
+			k.TVB = c.Pick(r, append([]int{0, 0}, vb...))
+		}
+		switch r.Intn(6) {
+		case 0: // request repeats the token
+			k.RVA, k.RVB = k.TVA, k.TVB
+		case 1: // request silent
+		case 2: // request contradicts or adds
+			k.RVA = c.Pick(r, append([]int{0}, va...))
+			k.RVB = c.Pick(r, append([]int{0}, vb...))
+		case 3:
+			k.RVA = c.Pick(r, va)
+		case 4:
+			k.RVB = c.Pick(r, vb)
+		default: // validAfter > validBefore in the request itself
+			k.TVA, k.RVA, k.RVB = 0, 21600, 14400
+			if k.TVB != 0 {
+				k.TVB = 14400
+			}
+		}
+	}
+	k.AddUser = r.Chance(1, 4)
+	if r.Chance(1, 6) {
+		k.ReqUD = c.Pick(r, []string{`{"principals":["root"],"type":"host","keyId":"evil"}`, `{"Principals":["root"],"KeyID":"evil","Type":"host"}`,
+			`{"extensions":{"permit-root":""},"criticalOptions":{"force-command":"id"}}`, `[1,2]`, `{`, `null`, `{"Insecure":{"CR":{"principals":["root"]}}}`})
+	}
 	return k
 }
 
@@ -264,6 +308,35 @@ func corner() []*Case {
 		{Op: "sign", CA: "both", Prov: "oidc", Sub: "123", Email: adminEmail, Req: Opts{CertType: "host", Principals: []string{"h.example.com"}, KeyID: "h"}, Key: "ed"},
 		{Op: "sign", CA: "both", Prov: "oidc", Sub: "123", Email: adminEmail, Req: Opts{}, Key: "ed"},
 		{Op: "sign", CA: "both", Prov: "oidc", Sub: "123", Key: "ed"},
+		// validity overrides
+		{Op: "sign", CA: "both", Prov: "jwk", Sub: "alice", TVA: 3600, TVB: 14400, Key: "ed"},
+		{Op: "sign", CA: "both", Prov: "jwk", Sub: "alice", TVA: 3600, TVB: 14400, RVA: 3600, RVB: 14400, Key: "ed"},
+		{Op: "sign", CA: "both", Prov: "jwk", Sub: "alice", TVA: 3600, TVB: 14400, RVA: 5400, Key: "ed"},
+		{Op: "sign", CA: "both", Prov: "jwk", Sub: "alice", TVA: 3600, TVB: 14400, RVB: 18000, Key: "ed"},
+		{Op: "sign", CA: "both", Prov: "x5c", Sub: "alice", Tok: Opts{CertType: "host"}, TVB: 14400, RVA: 5400, Key: "ed"},
+		{Op: "sign", CA: "both", Prov: "jwk", Sub: "alice", RVA: 5400, RVB: 18000, Key: "ed"},
+		{Op: "sign", CA: "both", Prov: "jwk", Sub: "alice", RVA: 21600, RVB: 14400, Key: "ed"},
+		{Op: "sign", CA: "both", Prov: "oidc", Sub: "123", Email: "alice@example.com", RVA: 3600, RVB: 14400, Key: "ed"},
+		{Op: "sign", CA: "both", Prov: "nebula", NebHost: 0, Sub: "host-a.neb", TVB: 18000, RVB: 14400, Key: "ed"},
+		// add-user certificate
+		{Op: "sign", CA: "both", Prov: "jwk", Sub: "alice", AddUser: true, Key: "ed"},
+		{Op: "sign", CA: "both", Prov: "jwk", Sub: "alice", Tok: Opts{CertType: "user", Principals: []string{"alice", "bob"}}, AddUser: true, Key: "ed"},
+		{Op: "sign", CA: "both", Prov: "jwk", Sub: "alice", Tok: Opts{CertType: "user", Principals: []string{"alice", "alice@example.com"}}, AddUser: true, Key: "ed"},
+		{Op: "sign", CA: "both", Prov: "jwk", Sub: "alice", Tok: Opts{CertType: "user", Principals: []string{"alice", "@x"}}, AddUser: true, Key: "ed"},
+		{Op: "sign", CA: "both", Prov: "jwk", Sub: "alice", Tok: Opts{CertType: "host", Principals: []string{"h.example.com"}}, AddUser: true, Key: "ed"},
+		{Op: "sign", CA: "both", Prov: "jwk", Sub: "alice", Tok: Opts{CertType: "user", Principals: []string{"x; id"}}, AddUser: true, Key: "ed"},
+		{Op: "sign", CA: "both", Prov: "oidc", Sub: "123", Email: "alice@example.com", AddUser: true, Key: "ed"},
+		{Op: "sign", CA: "bothnodb", Prov: "jwk", Sub: "alice", TVA: 3600, TVB: 14400, AddUser: true, Key: "ed"},
+		{Op: "sign", CA: "nosshcfg", Prov: "jwk", Sub: "alice", AddUser: true, Key: "ed"},
+		{Op: "sign", CA: "nosshcfg", Prov: "jwk", Sub: "alice", Tok: Opts{CertType: "host"}, AddUser: true, Key: "ed"},
+		{Op: "sign", CA: "nosshcfg", Prov: "jwk", Sub: "alice", Key: "ed"},
+		// K8sSA: everything from the request
+		{Op: "sign", CA: "both", Prov: "k8ssa", Sub: "builder", Req: Opts{CertType: "host", KeyID: "any", Principals: []string{"any.example.com"}}, Key: "ed"},
+		{Op: "sign", CA: "both", Prov: "k8ssa", Sub: "builder", Req: Opts{CertType: "user", KeyID: "root", Principals: []string{"root"}}, Key: "ed"},
+		{Op: "sign", CA: "both", Prov: "k8ssa", Sub: "builder", Req: Opts{CertType: "user", Principals: []string{"root"}}, Key: "ed"},
+		{Op: "sign", CA: "both", Prov: "k8ssa", Sub: "builder", Key: "ed"},
+		// request template data without a template
+		{Op: "sign", CA: "both", Prov: "jwk", Sub: "alice", Tok: Opts{CertType: "user", Principals: []string{"alice"}}, ReqUD: `{"principals":["root"],"type":"host","keyId":"evil"}`, Key: "ed"},
 		{Op: "sign", CA: "both", Prov: "nebula", NebHost: 0, Sub: "host-a.neb", NoSSH: true, Key: "ed"},
 		{Op: "sign", CA: "both", Prov: "nebula", NebHost: 0, Sub: "host-a.neb", NoSSH: true, Req: Opts{CertType: "user", Principals: []string{"root"}}, Key: "ed"},
 		{Op: "sign", CA: "both", Prov: "nebula", NebHost: 1, Sub: "Host-B.neb", Tok: Opts{CertType: "host", Principals: []string{"Host-B.neb", "10.1.2.8"}}, Key: "ed"},
